@@ -1,7 +1,7 @@
 #!/bin/bash
 # tools/run_all.sh [quick|thorough] [jobs]: every claimed check against /repo, summary per property
 tier=${1:-quick}; jobs=${2:-4}
-cd /verif
+cd "$(dirname "$0")/.."
 ids=$(python3 -c "import json;print(' '.join(c['property_id'] if 'property_id' in c else c['id'] for c in json.load(open('MANIFEST.json'))['checks']))")
 mkdir -p /tmp/run_all_$$
 for p in $ids; do echo $p; done | xargs -P $jobs -I{} bash -c "./check {} --tier $tier > /tmp/run_all_$$/{}.log 2>&1; echo \"{} exit=\$?\" >> /tmp/run_all_$$/{}.log"
